@@ -1,9 +1,9 @@
 """C13 — every accepted local operation keeps validity around the touched vertices; rejects leave no trace."""
-from . import streams_meshops
+from . import streams_meshops, streams_subdiv
 
 ID = 'C13'
-PROPS_MODULE = ['Refine.Props.C13']
-STREAMS = list(streams_meshops.STREAMS)
+PROPS_MODULE = ['Refine.Props.C13', 'Refine.Props.C13Subdiv']
+STREAMS = list(streams_meshops.STREAMS) + list(streams_subdiv.STREAMS)
 EXPLANATION = (
     'Proved in Lean 4 about the executable model Refine.Model.MeshOps (three cell groups tet/tri/edg as lists of '
     'rows over the concrete vertex-id state machine of C14): every reject path of the trial-vertex frame of '
@@ -32,8 +32,37 @@ EXPLANATION = (
     'with a touched vertex shared by two cells or one cell + one boundary element, removed vertices unreferenced, '
     'positive volume / orientation) is evaluated after every accept, cavity replacement and vertex move, and every '
     'rejected trial must carry the structural hash (all vertices with coordinates and metric, all cells, abstract id '
-    'pool) of its begin record. The python oracles state the same property independently of the Lean driver.')
+    'pool) of its begin record. The python oracles state the same property independently of the Lean driver. '
+    'ref_subdiv.c (the pattern splitter ref_split_pass uses for edges whose cells span partitions; model '
+    'Refine.Model.Subdiv, simplex part): for all 12 mark patterns ref_subdiv_split_tet implements - every rotation of '
+    '1 edge (1:2), 3 edges of a face (1:4), all 6 (1:8) - every symmetric between-vertex map, every abelian group and '
+    'alternating face functional, the signed boundary of the children equals the boundary of the parent with each '
+    'face replaced by the TRIANGLE template of that face\'s own side marks (subdiv_tet_conforming); the refinement of '
+    'a face depends only on the face and its side marks, reverses with the face and is invariant under relisting it '
+    'from another vertex, and no face of a supported pattern has exactly two marked sides (subdiv_face_reverse, '
+    'subdiv_face_rotate, tet_face_marks) - so two tets sharing a face stay conforming wherever they are split; with '
+    'the new vertex at 0.5*x0+0.5*x1 (ref_node_interpolate_edge weight 0.5) every child has exactly 1/2, 1/4, 1/8 of '
+    'the parent\'s signed volume, volumes add up, a child is positive iff the parent is (subdiv_tet_volume, '
+    'subdiv_tet_orientation); the private copy of the templates in ref_subdiv_unmark_neg_tet_geom_support lists '
+    'exactly the cells the splitter creates, and a tet that passes it gets children >= min_volume '
+    '(check_copy_agrees, negCheck_guards_split); ref_subdiv_split_tri (1:2, 1:tri+quad, 1:4) and _split_edg keep the '
+    'directed-side chain with marked sides halved, the area vector and the ids (subdiv_tri_conforming, '
+    'subdiv_tri_area, subdiv_edg_conforming, subdiv_ids_inherited); a tet on which ref_subdiv_unmark_tet / the '
+    'promote_2_3 + promote_2_all step reports no change carries a supported pattern, and those steps only remove / '
+    'only add marks (unmark_stable_supported, unmark_only_removes, promote_stable_supported). Tie (stream subdiv_fn): '
+    'the real ref_subdiv_create / mark_to_split / mark_relax / unmark_relax / unmark_tet / static '
+    'unmark_neg_tet_geom_support, new_node, split_tet/_tri/_edg and ref_subdiv_split (both allow_geometry branches, '
+    'with and without new marks) on generated tet/tri/edg grids with random numbering, global ids and local vertex '
+    'orders against the model, ordered vertex tuples and ids compared; the pattern histogram is in status_kinds '
+    '(tetmapK / trimapK / edgmapK).')
 ASSUMPTIONS = [
+    'ref_subdiv: serial and simplex only - the ghost exchanges of marks and new vertices between ranks '
+    '(ref_edge_ghost_*), ref_subdiv_add_local_cell\'s has_local filter, global-id issue for new vertices, and the '
+    'pyramid / prism / quad templates are not modelled; the mesh-level statement "sum over all tets = sum over all '
+    'boundary triangles" is not assembled from the per-cell theorems (the stream oracle checks it on every generated '
+    'grid); promote_2_all tests global edge indices instead of marks (copied as written; always true for the 6 '
+    'distinct edges of a tet: promote2All_guard_true); relaxation fixpoint loops are modelled with the C\'s sweep order '
+    'and 200-sweep limit but only their single-cell steps have theorems',
     'cell indices, the c2n free list and the adjacency chains of ref_cell.c are abstracted to lists of live rows '
     '(their refinement is C14 part B); ref_cell_list_with2 is modelled as "cells containing both vertices", which is '
     'the C only on states without a repeated vertex inside a cell - the op lines enforce that on input and the '
